@@ -102,6 +102,23 @@ def mk_T(it, mapping):
     return SObj(ClassVal("RecordingTransformer", builtin=True), {"transform": Builtin("transform", tr)}), log
 
 
+def bounded(chk):
+    """BOUNDED: generic definition vs textually specialised copy on the emulator (C13_oracle.py)"""
+    import json
+    from pyvc.report import run_replay
+    from .C13_oracle import ORACLE, DRIVER
+    res = run_replay(ORACLE + DRIVER, {}, chk.repo, timeout=3000)
+    if "evaluations" not in res:
+        chk.undecided("bounded:generic-vs-specialised", "oracle run failed: " + json.dumps(res)[:800])
+        return
+    w = res.get("witness")
+    o = chk.bounded_result("bounded:generic-definition==textually-specialised-copy-on-the-emulator(type, nat, bool-const and comptime parameters; generic structs; composition; partial specialisation)",
+                           not res.get("violates"), res["evaluations"], detail=res.get("detail") or f"{res['evaluations']} result components of 12 definitions x 2-3 instantiations agree", witness=w,
+                           func="guppylang_internals.definition.function:CheckedFunctionDef.monomorphize")
+    if w:
+        o.replay.update({"script": ORACLE + DRIVER, "input": {"only": w["definition"]}})
+
+
 def run(chk):
     chk.section("homomorphism", lambda: s1(chk))
     chk.section("instantiator-leaves", lambda: s2(chk))
@@ -109,13 +126,14 @@ def run(chk):
     chk.section("compile_variable_idx", lambda: s4(chk))
     chk.section("method-parameters", lambda: s5(chk))
     chk.section("mono-args-scope", lambda: s6(chk))
+    chk.section("bounded", lambda: bounded(chk))
     chk.expected_min_obligations = 60
     chk.assumptions += [
         "parameter lists of length <= 3 and instantiations of length <= 3 are enumerated (list lengths are a bound; the leaves substituted are arbitrary objects, de Bruijn indices in S2/S4 are symbolic)",
         "structural induction over type trees is applied by hand: S1 is the induction step for every node class, S2 the base case for variables",
         "dataclasses.replace / dataclass-generated __init__/__eq__ as modelled by pyvc",
     ]
-    chk.not_covered += ["CheckedFunctionDef.monomorphize and the HUGR emitted for (partially) monomorphized bodies; emulator equality of generic vs hand-specialised programs",
+    chk.not_covered += ["CheckedFunctionDef.monomorphize and the HUGR emitted for (partially) monomorphized bodies as contracts (the bounded layer runs 12 generic definitions against their textually specialised copies on the emulator; borrowed arrays of generic size cannot be lowered by this sandbox's selene toolchain and are outside it)",
                         "check_arg / type-argument inference (C12)"]
 
 
